@@ -157,6 +157,9 @@ def run_unit(unit):
     for obj, ft, mf in [((LZ.INF, 'angle', p['ang']), (p['od'][0], 'object_height', p['h']))[unit['objkind']]]:
         sp = LZ.spec(base, obj=obj, ap=('EPD', p['epd']), ftype=ft, fields=(0.0, 0.7 * mf, mf), waves=W3)
         rows0 = prescription.rows(sp, lambda m, prev: LZ.ref_index(m, 0.5876, prev))
+        if abcd.pupil_degenerate(rows0):
+            part.count('skipped-telecentric-pupil')
+            continue
         ys, us, _ = abcd.marginal(rows0, ('EPD', p['epd']))
         if abs(us[-2]) < 1e-6:
             part.count('skipped-afocal')
